@@ -201,8 +201,9 @@ func (w *World) AddPublisher(keyIdx int, discovery bool, handlerPath string) *Pu
 	p.ID = p.Key.ID
 	p.Store = &memstore.Store{}
 	p.Lsys = cidlink.DefaultLinkSystem()
-	p.Lsys.SetReadStorage(p.Store)
-	p.Lsys.SetWriteStorage(p.Store)
+	ls := &lockedStore{s: p.Store} // the script publishes while requests are being served
+	p.Lsys.SetReadStorage(ls)
+	p.Lsys.SetWriteStorage(ls)
 	p.LinkProto = schema.Linkproto
 	p.HostPort = fmt.Sprintf("10.0.0.%d:80", i+1)
 	opts := []ipnisync.Option{ipnisync.WithStartServer(false)}
@@ -555,3 +556,27 @@ func path(p string) string {
 func urlUnescape(s string) (string, error) { return url.QueryUnescape(s) }
 
 var _ net.Listener = (*memListener)(nil)
+
+// lockedStore makes the publisher's source store safe for concurrent publish and serve.
+type lockedStore struct {
+	mu sync.RWMutex
+	s  *memstore.Store
+}
+
+func (l *lockedStore) Has(ctx context.Context, key string) (bool, error) {
+	l.mu.RLock()
+	defer l.mu.RUnlock()
+	return l.s.Has(ctx, key)
+}
+
+func (l *lockedStore) Get(ctx context.Context, key string) ([]byte, error) {
+	l.mu.RLock()
+	defer l.mu.RUnlock()
+	return l.s.Get(ctx, key)
+}
+
+func (l *lockedStore) Put(ctx context.Context, key string, content []byte) error {
+	l.mu.Lock()
+	defer l.mu.Unlock()
+	return l.s.Put(ctx, key, content)
+}
